@@ -56,7 +56,7 @@ def monitor_step(pid, mon, tier, seed, result):
         out = os.path.join(outdir, "%s-%s-%s.json" % (mon["name"], cfg, tier))
         budget = mon.get("timeout_thorough" if tier == "thorough" else "timeout", 14400 if tier == "thorough" else 3600)
         for attempt in (1, 2):
-            rc, o, err, to, cmd = run_monitor_binary(binp, tier, seed, out, scale=scale, timeout=budget)
+            rc, o, err, to, cmd = run_monitor_binary(binp, tier, seed, out, scale=scale, timeout=budget, env=mon.get("env"))
             if not to:
                 break
             log("  watchdog fired for %s [%s] (attempt %d)" % (mon["name"], cfg, attempt))
@@ -69,7 +69,7 @@ def monitor_step(pid, mon, tier, seed, result):
             subs = [l.split()[0] for l in lst.splitlines() if l.strip()]
             for sname in subs:
                 so = out + "." + safe_name(sname)
-                rcs, os_, errs, tos, cmds = run_monitor_binary(binp, tier, seed, so, scale=scale, only=sname, timeout=budget)
+                rcs, os_, errs, tos, cmds = run_monitor_binary(binp, tier, seed, so, scale=scale, only=sname, timeout=budget, env=mon.get("env"))
                 if tos:
                     raise Inconclusive("watchdog fired while attributing a crash of %s [%s] sub %s" % (mon["name"], cfg, sname))
                 if rcs != 0 or not os.path.exists(so):
@@ -179,7 +179,7 @@ def run_property(pid, tier, seed):
             monitor_step(pid, mon, tier, seed, result)
         if p.get("custom"):
             mod = importlib.import_module(p["custom"])
-            mod.run(pid, tier, seed, result)
+            mod.run_property(pid, tier, seed, result)
     except Inconclusive as ex:
         print("INCONCLUSIVE property=%s: %s" % (pid, ex))
         return 2
